@@ -42,6 +42,7 @@ bool NLSolver::ReadSolution(SOLHandler& solh) {
     return (err_msg_="SOLReader: provide filename.", false);
   auto status = mp::ReadSOLFile(
         GetFileStub() + ".sol", solh, Utils());
+  sol_result_ = status.first;
   if (NLW2_SOLRead_OK != status.first)
     return (err_msg_="SOLReader error: "+status.second, false);
   return true;
